@@ -94,20 +94,20 @@ namespace Givaro {
     }
 
     //   ------------------------------ Rational(int n)
-    Rational::Rational(int32_t n ) : num(n), den(Integer::one)
+    Rational::Rational(int32_t n ) : num(n), den(1) // not Integer::one: it may not be built yet (static init order)
     { }
 
-    Rational::Rational(uint32_t n ) : num(n), den(Integer::one)
+    Rational::Rational(uint32_t n ) : num(n), den(1)
     { }
 
 
     //   ------------------------------ Rational(long n)
-    Rational::Rational(int64_t n ) : num(n), den(Integer::one)
+    Rational::Rational(int64_t n ) : num(n), den(1)
     { }
 
 
     //   ------------------------------ Rational(unsigned long n)
-    Rational::Rational(uint64_t n ) : num(n), den(Integer::one)
+    Rational::Rational(uint64_t n ) : num(n), den(1)
     { }
 
     //   ------------------------------ Rational(unsigned long n, unsigned long d )
